@@ -80,6 +80,7 @@ func runC20(c *Ctx) {
 		)
 		names := []string{"signatureCRC:equal", "verifiedDigest", "verifiedData", "optsType:ok", "opts:equal", "signed"}
 		seen := map[int]int{}
+		narrowed := false
 		r := &esp.Rule{Name: "C20.R1"}
 		r.Relevant = func(f *ssa.Function) bool { return f.Parent() == sign } // local closures (checksum helper)
 		r.Flag = func(v ssa.Value) (int, bool) {
@@ -104,6 +105,11 @@ func runC20(c *Ctx) {
 					ex := sl.Derives(v.Y, respSig) && (sl.Derives(v.Y, isChecksum) || derivesLocalChecksum(c, sl, v.Y))
 					ey := sl.Derives(v.X, respSigCrc)
 					if (dx && dy) || (ex && ey) {
+						for _, side := range []ssa.Value{v.X, v.Y} {
+							if sl.Derives(side, respSigCrc) && narrowsChecksum(sl, side, respSigCrc) {
+								narrowed = true
+							}
+						}
 						seen[evCrc]++
 						return []esp.Ev{{ID: evCrc, Name: "crc32c(signature) " + v.Op.String() + " signature_crc32c", ErrIdx: -1, BoolIdx: 0, Data: v.Op}}
 					}
@@ -199,6 +205,7 @@ func runC20(c *Ctx) {
 		if n == 0 {
 			c.S.OK("R1", "gcpkms.Signer.Sign:guards", c.pos(sign.Pos()), fmt.Sprintf("signature returned only behind all guards (%d configurations)", e.Configs), true)
 		}
+		c.S.Check(!narrowed, "R1", "gcpkms.Signer.Sign:checksum width", c.pos(sign.Pos()), "the response checksum is compared at its full width", "the response's signature_crc32c is narrowed before the comparison: corruptions in the dropped bits are not detected")
 		// returned value is the response signature
 		for _, b := range sign.Blocks {
 			if ret, ok := b.Instrs[len(b.Instrs)-1].(*ssa.Return); ok {
@@ -375,7 +382,7 @@ func runC20(c *Ctx) {
 					if inner != nil && inner != L && len(inner.Body) < len(L.Body) {
 						continue // early return from the inner item loop
 					}
-					if isErrorExit(to) {
+					if isErrorExit(to) || isFoundExit(to) {
 						continue
 					}
 					// the edge itself may be the empty-token edge: from ends in If on the token
@@ -397,6 +404,121 @@ func runC20(c *Ctx) {
 						why = "exit at " + c.pos(lastPos(from))
 					}
 				}
+				// loop-carried selections (pointer-typed header φ other than the token) are never reset to a possibly-nil value
+				for _, hi := range L.Header.Instrs {
+					phi, ok := hi.(*ssa.Phi)
+					if !ok {
+						break
+					}
+					if _, isPtr := phi.Type().Underlying().(*types.Pointer); !isPtr {
+						continue
+					}
+					okMono := true
+					seenV := map[ssa.Value]bool{}
+					var leaf func(v ssa.Value, d int)
+					leaf = func(v ssa.Value, d int) {
+						if v == phi || seenV[v] || d > 20 {
+							return
+						}
+						seenV[v] = true
+						if p2, ok := v.(*ssa.Phi); ok {
+							for _, e := range p2.Edges {
+								leaf(e, d+1)
+							}
+							return
+						}
+						// an element of the response list, or a value known non-nil
+						if ex, ok := v.(*ssa.Extract); ok {
+							if _, isNext := ex.Tuple.(*ssa.Next); isNext {
+								return
+							}
+						}
+						if u, ok := v.(*ssa.UnOp); ok {
+							if _, isIdx := u.X.(*ssa.IndexAddr); isIdx {
+								return
+							}
+						}
+						if in, ok := v.(ssa.Instruction); ok {
+							for _, cf := range dominatingCondsOfUse(phi, v, L) {
+								if bo, ok := cf.Cond.(*ssa.BinOp); ok && isNilK(bo.Y) && bo.X == v && (bo.Op == token.NEQ) == cf.Val {
+									return
+								}
+							}
+							_ = in
+						}
+						okMono = false
+					}
+					for i, pred := range L.Header.Preds {
+						if L.Body[pred] {
+							leaf(phi.Edges[i], 0)
+						}
+					}
+					c.S.Check(okMono, "R2", name+":carried selection "+phi.Comment, c.pos(phi.Pos()), "a candidate carried across pages is only replaced by a listed element or a value known non-nil", "a candidate selected on an earlier page can be overwritten with a possibly-nil value on a later page: versions seen earlier are forgotten")
+				}
+				// values computed from this page's response may leave the loop only through an
+				// accumulator (loop-carried φ) or an early "found" return
+				okAcc := true
+				accWhy := ""
+				headerPhis := map[ssa.Value]bool{}
+				for _, hi := range L.Header.Instrs {
+					if phi, ok := hi.(*ssa.Phi); ok {
+						headerPhis[phi] = true
+					}
+				}
+				for lb := range L.Body {
+					for _, li := range lb.Instrs {
+						v, ok := li.(ssa.Value)
+						if !ok || headerPhis[v] {
+							continue
+						}
+						refs := v.Referrers()
+						if refs == nil {
+							continue
+						}
+						for _, u := range *refs {
+							ub := u.Block()
+							if ub == nil || L.Body[ub] {
+								continue
+							}
+							if _, isDbg := u.(*ssa.DebugRef); isDbg {
+								continue
+							}
+							// used after the loop
+							fromResp, viaAcc := false, false
+							lsl := flow.NewSlicer(c.P)
+							lsl.Visit(v, func(x ssa.Value) bool {
+								if headerPhis[x] && x != tokPhi {
+									viaAcc = true
+									return false
+								}
+								if respVal(x) {
+									fromResp = true
+								}
+								return true
+							}, nil)
+							if !fromResp || viaAcc {
+								continue
+							}
+							if isFoundExit(ub) || isErrorExit(ub) {
+								continue
+							}
+							// early return taken from inside the inner item loop
+							fromInner := len(ub.Preds) > 0
+							for _, pb := range ub.Preds {
+								il := innermostLoopOf(loops, pb)
+								if il == nil || il == L || len(il.Body) >= len(L.Body) {
+									fromInner = false
+								}
+							}
+							if _, isRet := ub.Instrs[len(ub.Instrs)-1].(*ssa.Return); isRet && fromInner {
+								continue
+							}
+							okAcc = false
+							accWhy = c.pos(u.Pos())
+						}
+					}
+				}
+				c.S.Check(okAcc, "R2", name+":accumulation", c.pos(L.Header.Instrs[0].Pos()), "what is used after the loop is accumulated across pages (or an early find)", "a value computed from the last page only is used after the loop (at "+accWhy+"): results of earlier pages are forgotten")
 				c.S.Check(okExit, "R2", name+":exit", c.pos(L.Header.Instrs[0].Pos()), "leaves only on an empty next page token (or an error / an early find)", "the listing loop can stop while the service still has pages ("+why+"): versions beyond a short page are never seen")
 			}
 		}
@@ -730,6 +852,79 @@ func globalStores(c *Ctx, g *ssa.Global) []ssa.Value {
 			for _, in := range b.Instrs {
 				if st, ok := in.(*ssa.Store); ok && st.Addr == g {
 					out = append(out, st.Val)
+				}
+			}
+		}
+	}
+	return out
+}
+
+// narrowsChecksum: on the way from a source value to v there is an integer
+// conversion to a narrower type.
+func narrowsChecksum(sl *flow.Slicer, v ssa.Value, src func(ssa.Value) bool) bool {
+	found := false
+	sl.Visit(v, func(x ssa.Value) bool {
+		if cv, ok := x.(*ssa.Convert); ok {
+			from, ok1 := cv.X.Type().Underlying().(*types.Basic)
+			to, ok2 := cv.Type().Underlying().(*types.Basic)
+			if ok1 && ok2 && from.Info()&types.IsInteger != 0 && to.Info()&types.IsInteger != 0 && intBits(to) < intBits(from) && sl.Derives(cv.X, src) {
+				found = true
+			}
+		}
+		return !found
+	}, nil)
+	return found
+}
+
+func intBits(b *types.Basic) int {
+	switch b.Kind() {
+	case types.Int8, types.Uint8:
+		return 8
+	case types.Int16, types.Uint16:
+		return 16
+	case types.Int32, types.Uint32:
+		return 32
+	case types.Int64, types.Uint64:
+		return 64
+	}
+	return 64 // int, uint, uintptr on the analysed target are treated as 64-bit here
+}
+
+// isFoundExit: the block returns (v, nil) on an edge dominated by v != nil — an
+// early "found the item" return.
+func isFoundExit(b *ssa.BasicBlock) bool {
+	ret, ok := b.Instrs[len(b.Instrs)-1].(*ssa.Return)
+	if !ok || len(ret.Results) != 2 {
+		return false
+	}
+	if k, ok := ret.Results[1].(*ssa.Const); !ok || k.Value != nil {
+		return false
+	}
+	v := ret.Results[0]
+	for _, cf := range dominatingConds(b) {
+		bo, ok := cf.Cond.(*ssa.BinOp)
+		if !ok || !isNilK(bo.Y) || bo.X != v {
+			continue
+		}
+		if (bo.Op == token.NEQ) == cf.Val && (bo.Op == token.NEQ || bo.Op == token.EQL) {
+			return true
+		}
+	}
+	return false
+}
+
+// dominatingCondsOfUse: conditions dominating the edges on which value v flows
+// into the loop-carried φ (approximated by the conditions dominating the
+// predecessor blocks of the φ-nodes v is an operand of).
+func dominatingCondsOfUse(h *ssa.Phi, v ssa.Value, L *loop) []condFact {
+	var out []condFact
+	if refs := v.Referrers(); refs != nil {
+		for _, r := range *refs {
+			if p, ok := r.(*ssa.Phi); ok {
+				for i, e := range p.Edges {
+					if e == v {
+						out = append(out, dominatingConds(p.Block().Preds[i])...)
+					}
 				}
 			}
 		}
